@@ -12,5 +12,5 @@ cp /repo/Cargo.lock ./Cargo.lock || exit 2
 export CARGO_NET_OFFLINE=true
 export CARGO_TARGET_DIR="${CARGO_TARGET_DIR:-/verif/build/replay-target}"
 export RUST_BACKTRACE="${REPLAY_BACKTRACE:-0}"
-cargo test --offline --test witnesses -- --test-threads 4 "$@"
+cargo test --offline --test "${REPLAY_TEST:-witnesses}" -- --test-threads 4 "$@"
 exit $?
